@@ -1,0 +1,194 @@
+//! Verification hooks (only compiled with `--cfg iroh_verif`).
+//!
+//! Two primitives shared by all crates of the workspace:
+//!
+//! - *pause points*: `pause(label)` / `pause_async(label).await` are no-ops unless the
+//!   harness armed the label with [`arm`]; an armed arrival is held until [`release`].
+//! - *events*: `event(label, fields)` appends a record with a global sequence number to an
+//!   in-memory log if recording was switched on with [`record`].
+#![allow(missing_docs, clippy::unwrap_used, missing_debug_implementations)]
+
+use std::{
+    collections::HashMap,
+    sync::{Condvar, Mutex, MutexGuard},
+    task::{Poll, Waker},
+    time::{Duration, Instant},
+};
+
+#[derive(Default)]
+struct Gate {
+    /// Number of future arrivals that will be held.
+    armed: usize,
+    /// Number of arrivals held so far (tickets handed out).
+    arrived: usize,
+    /// Tickets `<= released` may proceed.
+    released: usize,
+    wakers: Vec<Waker>,
+}
+
+#[derive(Default)]
+struct State {
+    gates: HashMap<String, Gate>,
+    recording: bool,
+    events: Vec<Event>,
+}
+
+/// One recorded event.
+#[derive(Debug, Clone)]
+pub struct Event {
+    pub seq: u64,
+    pub label: String,
+    pub fields: Vec<(String, String)>,
+}
+
+static STATE: Mutex<Option<State>> = Mutex::new(None);
+static CV: Condvar = Condvar::new();
+
+fn lock() -> MutexGuard<'static, Option<State>> {
+    let mut g = STATE.lock().unwrap_or_else(|e| e.into_inner());
+    if g.is_none() {
+        *g = Some(State::default());
+    }
+    g
+}
+
+/// Holds the next `n` arrivals at `label`.
+pub fn arm(label: &str, n: usize) {
+    let mut g = lock();
+    g.as_mut().unwrap().gates.entry(label.to_string()).or_default().armed += n;
+}
+
+/// Number of arrivals that have been held at `label` so far.
+pub fn arrived(label: &str) -> usize {
+    let g = lock();
+    g.as_ref().unwrap().gates.get(label).map(|x| x.arrived).unwrap_or(0)
+}
+
+/// Lets `n` more held arrivals at `label` proceed.
+pub fn release(label: &str, n: usize) {
+    let mut g = lock();
+    let gate = g.as_mut().unwrap().gates.entry(label.to_string()).or_default();
+    gate.released += n;
+    for w in gate.wakers.drain(..) {
+        w.wake();
+    }
+    CV.notify_all();
+}
+
+/// Blocks the calling (harness) thread until `n` arrivals were held at `label`.
+pub fn wait_arrived(label: &str, n: usize, timeout: Duration) -> bool {
+    let deadline = Instant::now() + timeout;
+    let mut g = lock();
+    loop {
+        if g.as_ref().unwrap().gates.get(label).map(|x| x.arrived).unwrap_or(0) >= n {
+            return true;
+        }
+        let now = Instant::now();
+        if now >= deadline {
+            return false;
+        }
+        g = CV.wait_timeout(g, deadline - now).unwrap_or_else(|e| e.into_inner()).0;
+    }
+}
+
+/// Disarms and releases everything, clears the event log.
+pub fn reset() {
+    let mut g = lock();
+    let st = g.as_mut().unwrap();
+    for gate in st.gates.values_mut() {
+        gate.armed = 0;
+        gate.released = usize::MAX / 2;
+        for w in gate.wakers.drain(..) {
+            w.wake();
+        }
+    }
+    st.gates.retain(|_, gate| gate.arrived > 0);
+    st.events.clear();
+    CV.notify_all();
+}
+
+/// Removes all gates (call only when no thread is held).
+pub fn clear_gates() {
+    let mut g = lock();
+    g.as_mut().unwrap().gates.clear();
+}
+
+fn take_ticket(label: &str) -> Option<usize> {
+    let mut g = lock();
+    let gate = g.as_mut().unwrap().gates.get_mut(label)?;
+    if gate.armed == 0 {
+        return None;
+    }
+    gate.armed -= 1;
+    gate.arrived += 1;
+    let t = gate.arrived;
+    CV.notify_all();
+    Some(t)
+}
+
+/// Pause point for synchronous code.
+pub fn pause(label: &str) {
+    let Some(ticket) = take_ticket(label) else {
+        return;
+    };
+    let mut g = lock();
+    loop {
+        if g.as_ref().unwrap().gates.get(label).map(|x| x.released).unwrap_or(usize::MAX) >= ticket {
+            return;
+        }
+        g = CV.wait(g).unwrap_or_else(|e| e.into_inner());
+    }
+}
+
+/// Pause point for async code.
+pub async fn pause_async(label: &str) {
+    let Some(ticket) = take_ticket(label) else {
+        return;
+    };
+    std::future::poll_fn(|cx| {
+        let mut g = lock();
+        match g.as_mut().unwrap().gates.get_mut(label) {
+            None => Poll::Ready(()),
+            Some(gate) if gate.released >= ticket => Poll::Ready(()),
+            Some(gate) => {
+                gate.wakers.push(cx.waker().clone());
+                Poll::Pending
+            }
+        }
+    })
+    .await
+}
+
+/// Switches event recording on or off.
+pub fn record(on: bool) {
+    let mut g = lock();
+    g.as_mut().unwrap().recording = on;
+}
+
+/// Appends an event (no-op unless recording).
+pub fn event(label: &str, fields: &[(&str, String)]) {
+    let mut g = lock();
+    let st = g.as_mut().unwrap();
+    if !st.recording {
+        return;
+    }
+    let seq = st.events.len() as u64 + 1;
+    st.events.push(Event {
+        seq,
+        label: label.to_string(),
+        fields: fields.iter().map(|(k, v)| (k.to_string(), v.clone())).collect(),
+    });
+    CV.notify_all();
+}
+
+/// Takes the recorded events.
+pub fn take_events() -> Vec<Event> {
+    let mut g = lock();
+    std::mem::take(&mut g.as_mut().unwrap().events)
+}
+
+/// Copies the recorded events.
+pub fn events() -> Vec<Event> {
+    let g = lock();
+    g.as_ref().unwrap().events.clone()
+}
